@@ -30,12 +30,16 @@ FEW_KEYS = '7'
 THRESH_HI = 'ffff0000ffff0000'
 
 NAMES = ['AT Translated Set 2 keyboard', 'Logitech USB Optical Mouse', 'Razer DeathAdder', 'Power Button', 'cros_ec', 'Yubico YubiKey OTP',
-         'Gaming KEYBOARD Mouse', 'totalmapper']
+         'Gaming KEYBOARD Mouse', 'totalmapper', 'SINO WEALTH Gaming KB ', 'Some "quoted"']
+# count threshold mask (one word): ESC..bit 17, ENTER (28), A (30) = 19 keys fixed; the symbolic top digit (bits 60..63) adds 0..4 keys,
+# one of them in bit 63 of the word
+COUNT_LOW = '%015x' % (sum(1 << b for b in range(1, 18)) | (1 << 28) | (1 << 30))
 SYSFS = ['/devices/platform/i8042/serio0/input/input3', '/devices/pci0000:00/0000:00:14.0/usb1/1-2/1-2:1.0/0003:046D:C077.0001/input/input7',
          '/devices/pci0000:00/0000:00:14.0/usb1/1-3/input/input9', '/devices/virtual/input/input20', '/devices/virtual/input/input21']
 DEVNODE = {SYSFS[0]: '/dev/input/event3', SYSFS[1]: '/dev/input/event7', SYSFS[2]: '/dev/input/event9', SYSFS[3]: '/dev/input/event20', SYSFS[4]: None}
 EVS = ['120013', '1f', '3', None]
-PATTERNS = [[], ['*Mouse*'], ['Yubico*'], ['*'], ['?T Translated*', 'Razer*'], ['AT Translated Set 2 keyboard'], ['*keyboard', 'Power?Button']]
+PATTERNS = [[], ['*Mouse*'], ['Yubico*'], ['*'], ['?T Translated*', 'Razer*'], ['AT Translated Set 2 keyboard'], ['*keyboard', 'Power?Button'],
+            ['SINO WEALTH Gaming KB ', '*"quoted"'], ['*KB']]
 
 
 class Env:
@@ -157,8 +161,13 @@ def gen_entry(it, idx, stage):
         return Entry(name, sysfs, ev, key, list('NPSUHEK'))
     if stage == 'masks':
         # symbolic hex digits: the KEY-mask digit holding ENTER/A and the EV-mask digit holding the LED bit
-        which = pick(['key', 'ev'])
+        which = pick(['key', 'key-count', 'ev'])
         name = pick([NAMES[0], NAMES[2], NAMES[1]])
+        if which == 'key-count':
+            # the "at least 20 keys" rule: 19 fixed keys, the top digit of the word symbolic
+            term = z3.BitVec('cdigit%d' % idx, 32)
+            it.assume(z3.Or(z3.And(z3.UGE(term, ord('0')), z3.ULE(term, ord('9'))), z3.And(z3.UGE(term, ord('a')), z3.ULE(term, ord('f')))))
+            return Entry(name, SYSFS[idx % 3], '120013', 'X' + COUNT_LOW, list('NPSUHEK'), sym=('key', 15, term))
         if which == 'key':
             low = '0000000' + 'X' + '0004002'      # ESC (1), BACKSPACE (14) fixed; digit 7 symbolic
             low = '000000020' + low[9:] if False else low
@@ -201,7 +210,7 @@ def c16_path(it, stage, nent):
         seen.add(e.sysfs)
     perm = it.choose(2) if nent > 1 else 0
     ordered = list(reversed(entries)) if perm == 1 else entries
-    pats = {'structure': [PATTERNS[0], PATTERNS[1], PATTERNS[4]], 'names': [PATTERNS[0], PATTERNS[1], PATTERNS[2], PATTERNS[6]], 'masks': [PATTERNS[0], PATTERNS[1]]}[stage]
+    pats = {'structure': [PATTERNS[0], PATTERNS[1], PATTERNS[4]], 'names': [PATTERNS[0], PATTERNS[1], PATTERNS[2], PATTERNS[6], PATTERNS[7], PATTERNS[8]], 'masks': [PATTERNS[0], PATTERNS[1]]}[stage]
     excludes = pats[it.choose(len(pats))]
     it._case = (entries, perm, excludes)
     text = assemble(ordered)
